@@ -176,8 +176,22 @@ def static_uns(e, defs, hide=()):
     return static_uns(e[2], defs, hide) or static_uns(e[3], defs, hide)
 
 
+def mentions_non_expr(e, defs, hide=()):
+    k = e[0]
+    if k == 'i':
+        n = e[1]
+        if n in hide or n not in defs:
+            return False
+        return True if defs[n] is None else mentions_non_expr(defs[n], defs, hide + (n,))
+    if k in ('n', 'd'):
+        return False
+    return any(mentions_non_expr(x, defs, hide) for x in e[1:] if isinstance(x, tuple))
+
+
 def py_eval(e, defs, hide=()):
     """(bits, unsigned) by C11 6.10.1p4; raises Undefined / DivZero.  Used only to steer the generators."""
+    if not hide and mentions_non_expr(e, defs):
+        raise Undefined('macro without expression body')
     k = e[0]
     if k == 'n':
         return e[1], e[3]
@@ -1098,19 +1112,7 @@ def graph_proto(g, sysdirs):
             s += f'opt U {o[1]}\n'
         elif o[0] == 'include':
             s += f'opt include {o[1]}\n'
-    table = dict(g.files)
-    # dirname("m.c") is ".", so a quoted include in the main file is first looked up as "./name"
-    alldirs = sorted({p.rsplit('/', 1)[0] for p in g.files if '/' in p})
-    for p, ls in list(g.files.items()):
-        table['./' + p] = ls
-        if '/' in p:
-            dname, n = p.rsplit('/', 1)
-            table[f'{dname}/../{p}'] = ls
-            table[f'./{dname}/../{p}'] = ls
-        else:
-            for dname in alldirs:
-                if '/' not in dname:
-                    table[f'{dname}/../{p}'] = ls
+    table = dict(g.files)          # the model's file system normalises ./ and x/.. itself
     for p, ls in table.items():
         s += f'file {p}\n' + ''.join(l.p + '\n' for l in ls)
     s += 'main m.c\nfuel 200000\nend\n'
